@@ -281,11 +281,9 @@ impl Links {
         } = self;
         let lane_ids = backwards.remove(&id).unwrap_or_default();
         for lane_id in lane_ids {
+            //The entry is retained, even when it becomes empty, as it holds the reporter for the lane.
             if let Entry::Occupied(mut entry) = forward.entry(lane_id) {
                 entry.get_mut().remove(&id, total_count);
-                if entry.get().is_empty() {
-                    entry.remove();
-                }
             }
         }
         if let Some(reporter) = aggregate_reporter {
